@@ -211,7 +211,7 @@ func c12Server(c *ev.Ctx) {
 	for i := 0; i < c.Sz(3, 40); i++ {
 		msizes = append(msizes, uint32(r.U64()>>uint(r.Intn(32)+32)))
 	}
-	strs := c12Strings(r, c.Sz(60, 20000))
+	strs := c12Strings(r, c.Sz(60, 60000))
 	srv := p9.NewServer(noAttach{})
 	idx := 0
 	for _, s := range strs {
@@ -234,7 +234,7 @@ func c12Server(c *ev.Ctx) {
 		}
 	}
 	// Mid-session and repeated Tversion on one connection.
-	seqs := c.Sz(40, 2000)
+	seqs := c.Sz(400, 20000)
 	for k := 0; k < seqs; k++ {
 		idx++
 		if !c.Mine(idx) {
@@ -244,14 +244,22 @@ func c12Server(c *ev.Ctx) {
 		p := rawpeer.New(srv, nil)
 		c.Begin(fmt.Sprintf("C12 server mid-session seq %d", k))
 		alive := true
-		for step := 0; step < 6 && alive; step++ {
-			ms := ev.Pick(rr, []uint32{4096, 8192, 65536, mib4, mib4 + 1, 0, 1 << 20})
+		limit := uint64(mib4) // the msize in force: only an accepted Tversion changes it
+		for step := 0; step < 8 && alive; step++ {
+			ms := ev.Pick(rr, []uint32{4096, 8192, 65536, mib4, mib4 + 1, 0, 1 << 20, 1, 6, 7, 16, 20, 24, 64, 100})
 			s := ev.Pick(rr, strs)
 			if len(s) > 4000 {
 				s = "9P2000.L"
 			}
-			if rr.Chance(60) {
+			if rr.Chance(50) {
 				s = fmt.Sprintf("9P2000.L.Google.%d", rr.Intn(10))
+			}
+			if ms < 200 && rr.Chance(70) {
+				// a refused offer with a tiny msize must leave the limit alone
+				s = ev.Pick(rr, []string{"9P2000", "9P2000.u", "unknown", "9P2000.L.Google.-1", "junk", ""})
+			}
+			if uint64(7+4+2+len(s)) > limit {
+				break // this Tversion itself would exceed the msize in force
 			}
 			res := p.Version(ms, s)
 			checkRversion(c, res, ms, s, "mid-session")
@@ -259,18 +267,18 @@ func c12Server(c *ev.Ctx) {
 				alive = false
 				break
 			}
-			// other traffic in between: a request on an unbound fid
-			if rr.Bool() {
+			if res.Msg.Type == wire.Rversion && res.Msg.F[1].(string) != "unknown" {
+				limit = res.Msg.F[0].(uint64)
+			}
+			// other traffic in between: a request on an unbound fid (19 bytes)
+			if rr.Bool() && limit >= 19 {
 				g := p.RPC(wire.Tgetattr, uint64(rr.Intn(5)), uint64(0x7ff))
 				if !g.OK {
-					// After a Tversion that set a tiny msize the connection may
-					// legitimately end; with >= 4096 it must not.
-					if p.Msize() >= 4096 {
-						if g.Out == quiesce.CondMet {
-							c.Violation("C12:srv:connection-ended-after-version", map[string]any{"msize": p.Msize()})
-						} else {
-							hang(c, g.Out, g.Dump, "C12:srv:request-after-version-unanswered", nil)
-						}
+					det := map[string]any{"msize_in_force": limit, "last_offer_msize": ms, "last_offer_version": cutS(s, 40), "last_reply": res.Msg.String()}
+					if g.Out == quiesce.CondMet {
+						c.Violation("C12:srv:connection-ended-by-a-frame-within-the-msize-in-force", det)
+					} else {
+						hang(c, g.Out, g.Dump, "C12:srv:request-after-version-unanswered", det)
 					}
 					alive = false
 				}
